@@ -74,7 +74,7 @@ CHECKS = {
         "message-switch text, flag assignment; ExplorerScript and SsbScript decompilers; indentation 0-4) and compiled "
         "back, compared by value; and generated literal spellings compared with a reference reader written from the "
         "specification's Data Types section.",
-        "Control characters / tabs-as-indentation are not generated; identifier-like position-mark names; one known finding (strings without an exact literal) excluded by the predicate vf.checks.c04.unspellable.",
+        "Control characters / tabs-as-indentation are not generated; one known finding (strings without an exact literal) excluded by the predicate vf.checks.c04.unspellable.",
         "DESIGN.md 4 C04",
     ),
     "C06": (
